@@ -176,6 +176,9 @@ def handleSearch (cmd : String) (p : Position) (r : List String) : String :=
   | "qs", [a, b] =>
     (match qsearch 80 p ⟨0, 0⟩ (int! a) (int! b) 0 with
      | some (s, q) => s!"{s} {q.nodes} {q.seldepth}" | none => "PANIC")
+  | "qs", [a, b, ply] =>
+    (match qsearch 80 p ⟨0, 0⟩ (int! a) (int! b) (int! ply) with
+     | some (s, q) => s!"{s} {q.nodes} {q.seldepth}" | none => "PANIC")
   | "nm", [hist, tt, a, b, ply, d, cn] =>
     (match buildTT tt with
      | none => "PANIC"
